@@ -98,6 +98,20 @@ func FeasibleEdges(ph *ssa.Phi, gs []Guard) []bool {
 								definitelyNonNil = true
 							}
 						}
+						if !definitelyNonNil && !isC && i < len(q.Block().Preds) {
+							// the edge leaves a block that is only reached with `e != nil` decided (the `if err != nil
+							// { r = nil; break }` exit of an expanded helper): SSA values do not change, so e is non-nil here
+							pred := q.Block().Preds[i]
+							pgs := Guards(pred)
+							if iff, isIf := pred.Instrs[len(pred.Instrs)-1].(*ssa.If); isIf && pred.Succs[0] != pred.Succs[1] {
+								pgs = append(pgs[:len(pgs):len(pgs)], Guard{iff.Cond, pred.Succs[0] == q.Block(), pred})
+							}
+							for _, pg := range pgs {
+								if GuardNilness(pg, func(v ssa.Value) bool { return v == e }) == -1 {
+									definitelyNonNil = true
+								}
+							}
+						}
 						if want && definitelyNonNil { // outcome says nil
 							feasible[i] = false
 						}
